@@ -211,6 +211,19 @@ fn run(sh: &mut Shard) {
         }
         sh.running()
     });
+    // exits across function boundaries (C11), all paths of whatever the compiler accepts
+    super::c11::exit_scopes(&mut |prog| {
+        if sh.mine() {
+            let text = printer::program(prog);
+            sh.begin(&|| text.clone());
+            sh.count("family:exit-scopes");
+            let c = check_ast(sh, &ops, "exit-scopes", &text, &prog.to_vec());
+            if c.compiled {
+                sh.nontrivial(&text);
+            }
+        }
+        sh.running()
+    });
     // deep control chains (C11), all paths
     super::c11::deep_chains(if tier == Tier::Quick { 4 } else { 5 }, &mut |prog| {
         if sh.mine() {
